@@ -151,7 +151,11 @@ def run(tier, seed):
         if c["id"] not in seen:
             seen.add(c["id"])
             uniq.append(c)
-    res = core.run_batch(uniq, sub_args=("c05", "prep"), hang_s=30, as_gb=4, max_deaths=4)
+    # the deep-nesting texts are few and each death there is an observation of its own; the mass families are cut
+    # short once a tree has killed or hung the worker four times in a shard
+    nest_cases = [c for c in uniq if c["id"].startswith("nest|")]
+    res = core.run_batch([c for c in uniq if not c["id"].startswith("nest|")], sub_args=("c05", "prep"), hang_s=30, as_gb=4, max_deaths=4)
+    res.update(core.run_batch(nest_cases, sub_args=("c05", "prep"), hang_s=30, as_gb=4))
     counts = {}
     skipped = 0
     for c in uniq:
